@@ -115,6 +115,21 @@ def directed_bases(base_id):
     return out
 
 
+def finding_scenarios(base_id):
+    """the two known findings, deterministically (so that every run reports them)"""
+    log = [data(3), data(3), data(3), data(3)]
+    a = {"id": base_id, "seed": 1, "brokers": 2, "partitions": 1, "iso": 0, "policy": "latest", "mode": "group_assign",
+         "logs": {"0": copy.deepcopy(log)}, "log_start": {"0": 2}, "committed": {"0": 4}, "faults": {},
+         "coord_loading": [{"at": 0, "for": 0.2}], "inject": None, "consume": 1, "drain": 20.0}
+    b = {"id": base_id + 1, "seed": 2, "brokers": 1, "partitions": 1, "iso": 0, "policy": "earliest", "mode": "group",
+         "logs": {"0": copy.deepcopy(log)}, "log_start": {"0": 2}, "committed": {}, "faults": {},
+         "inject": {"after_kind": "c_lo_sent", "p": 0, "kind": "seek_end", "to": 0}, "consume": 1, "drain": 20.0}
+    c = copy.deepcopy(b)
+    c.update({"id": base_id + 2, "policy": "latest", "mode": "assign",
+              "inject": {"after_kind": "c_lo_sent", "p": 0, "kind": "seek_beg", "to": 0}})
+    return [a, b, c]
+
+
 def with_injections(base, n_events, kinds, next_id):
     out = []
     for p_str, n in n_events.items():
@@ -275,6 +290,7 @@ def monitor(ck, sc, r):
         pending_user = None         # ("seek", o) / ("seekto", strategy) not yet overridden
         n_established = 0
         after_oor = False
+        oor_pending = None          # an offset the broker reported out of range, not yet acted upon
         of_err = False              # the OffsetFetch in flight was answered with a top-level-only error
         swallowed = False           # ... and the client resolved the lookup with "no committed offset"
         for i, e in enumerate(evs):
@@ -295,12 +311,14 @@ def monitor(ck, sc, r):
                 pending_user = ("seek", e["o"])
                 expected_ptr = e["o"]
                 after_oor = False
+                oor_pending = None
             elif k == "c_seek_reset":
                 pending_user = ("seekto", e["strategy"], i)
                 expected_ptr = None
             elif k == "c_fetch_resp" and e["code"] == 1:
                 if expected_ptr is not None and e["o"] == expected_ptr:
                     after_oor = True      # the broker says this position is out of range
+                    oor_pending = e["o"]
                     pending_user = None
                     if sc["policy"] != "none":
                         expected_ptr = None
@@ -363,6 +381,7 @@ def monitor(ck, sc, r):
                 expected_ptr = o
                 pending_user = None
                 after_oor = False
+                oor_pending = None
             elif k == "a_getmany":
                 for m in e["recs"].get(str(p), []):
                     if expected_ptr is None:
@@ -382,6 +401,9 @@ def monitor(ck, sc, r):
                     if sc["policy"] != "none":
                         viol(f"OffsetOutOfRangeError raised although the policy is {sc['policy']}", p, {"event": e})
         fin = r["final"][str(p)]
+        if oor_pending is not None and sc["policy"] != "none" and fin["pos"] == oor_pending:
+            viol(f"the leader reported position {oor_pending} out of range but the consumer never moved to the "
+                 f"{sc['policy']} offset", p, {"final": fin}, sig="sim:out-of-range-not-reset")
         # completion: faults are finite, so in the end there is a position or (policy none) an error was raised
         if fin["pos"] is None:
             ok_none = sc["policy"] == "none" and any(e["ev"] == "c_raise" for e in evs)
@@ -552,6 +574,7 @@ def run(ck: Check):
     if not ck.thorough:
         grid = [sc for i, sc in enumerate(grid) if i % 3 == ck.seed % 3 or sc["committed"] == {"0": 25}]
     bases += grid
+    bases += finding_scenarios(150000)
     bases += [gen_base(rng, i) for i in range(ck.n(40, 700))]
     t0 = _t.time()
     results = c03.run_scenarios(bases, timeout=ck.n(600, 2400), script="c13_sim.py")
